@@ -23,6 +23,10 @@ static _Atomic int nfinished;
 static fiber_signal_t sigs[RT_MAX_THREADS];
 static fiber_bounded_channel_t* chans[RT_MAX_THREADS];
 static _Atomic int receiving[RT_MAX_THREADS];
+/* two multi-waiter signals (include/fiber_signal.h, fiber_multi_signal_*): any fiber may wait, any fiber may raise */
+static fiber_multi_signal_t msig[2];
+static _Atomic long ms_raised[2], ms_returned[2];
+static _Atomic int ms_waiting[2];
 
 static void* closer_prog(void* param) {
   fiber_yield();
@@ -75,6 +79,21 @@ static void* fiber_prog(void* param) {
         fiber_t* c = fiber_create(20000, &child_prog, (void*)(intptr_t)a);
         void* res = NULL;
         r = (fiber_join(c, &res) == FIBER_SUCCESS && res == (void*)(intptr_t)a) ? 0 : 7;
+        break;
+      }
+      case 19: {  /* wait on multi-waiter signal a: must not return unless it was raised (a raise with no waiter is remembered) */
+        int w = (int)(a & 1);
+        if (held[0] || held[1]) break;
+        atomic_fetch_add(&ms_waiting[w], 1);
+        fiber_multi_signal_wait(&msig[w]);
+        atomic_fetch_sub(&ms_waiting[w], 1);
+        if (atomic_fetch_add(&ms_returned[w], 1) + 1 > atomic_load(&ms_raised[w])) r = 77;
+        break;
+      }
+      case 20: {  /* raise multi-waiter signal a (counted before the call) */
+        int w = (int)(a & 1);
+        atomic_fetch_add(&ms_raised[w], 1);
+        fiber_multi_signal_raise(&msig[w]);
         break;
       }
       case 18: usleep(1000 + 4000 * (unsigned)a); break;   /* fiber sleep of 2 or 6 virtual ticks (the main fiber advances time) */
@@ -134,6 +153,7 @@ static void main_fiber(void) {
   fiber_mutex_init(&mtx[0]); fiber_mutex_init(&mtx[1]);
   fiber_cond_init(&cond);
   fiber_semaphore_init(&sem, 0);
+  for (int w = 0; w < 2; w++) { fiber_multi_signal_init(&msig[w]); ms_raised[w] = 0; ms_returned[w] = 0; ms_waiting[w] = 0; }
   for (int f = 0; f < nf; f++) { fiber_signal_init(&sigs[f]); chans[f] = fiber_bounded_channel_create(2, &sigs[f]); receiving[f] = 0; }
   /* optional 3rd parameter: the main fiber's FIRST blocking call is a sleep (1: before it creates the fibers, 2: right
    * after): the first time a kernel thread runs out of runnable fibers it creates its scheduler-loop fiber on the way */
@@ -146,6 +166,8 @@ static void main_fiber(void) {
     fiber_mutex_lock(&mtx[0]); flag = 1; fiber_cond_broadcast(&cond); fiber_mutex_unlock(&mtx[0]);
     t2_advance_ticks(1);
     t2_poll_from_fiber();
+    for (int w = 0; w < 2; w++)
+      if (atomic_load(&ms_waiting[w])) { atomic_fetch_add(&ms_raised[w], 1); fiber_multi_signal_raise(&msig[w]); }
     for (int f = 0; f < nf; f++)
       if (atomic_load(&receiving[f]) && chans[f]->high == chans[f]->low) fiber_bounded_channel_send(chans[f], (void*)(intptr_t)99);
     fiber_yield();
